@@ -10,7 +10,7 @@ vars == <<phase, i, obs>>
 ZeroForm == [c0 |-> QI(0), c1 |-> QI(0), c2 |-> QI(0)]
 EvalOdo(c) ==
   LET p1 == Lift(c.k, c.t1, c.r1)  p2 == Lift(c.k, c.t2, c.r2)  z == Lift(c.k, c.tz, c.rz)
-      ej == OdoErrJ(p1, p2, z)
+      ej == OdoErrC(Pert(p1, 0), Pert(p2, CDim(p1.k)), z, "canon")
   IN [e |-> EOut(ej), J |-> JOut(ej), w |-> OdoErrW(p1, p2, z), chi2 |-> IF c.chi2 THEN Chi2Form(ej, c.W) ELSE ZeroForm,
       unit |-> UnitRot(p1) /\ UnitRot(p2) /\ UnitRot(z)]
 EvalLm(c) ==
